@@ -63,6 +63,10 @@ PLAN = {
     },
     'C12': {
         'inv': ['C12_Isolation'],
+        # random tier: arbitrary frames of the offender (FuzzOK per step)
+        'walks': [('hostile_fuzz', 400, 8000, 60),
+                  ('hostile_fuzz_mp', 150, 3000, 60)],
+        'walk_inv': [],
         'quick': ['hostile_quick', 'hostile_mp_quick'],
         'thorough': ['hostile_quick', 'hostile_mp_quick', 'hostile_t'],
     },
